@@ -653,8 +653,15 @@ func (env *Environment) handleHooks(workflow workflow.Role, trigger string, weig
 	callsMapForAwait := env.callsPendingAwait[trigger]
 
 	allWeightsSet := make(callable.HooksMap)
-	for k := range hooksMapForTrigger {
+	for k, hooks := range hooksMapForTrigger {
 		allWeightsSet[k] = callable.Hooks{}
+		// A call started here may await at another weight of this same trigger: that weight must be
+		// visited too, even if no hook is triggered there and no call is pending there yet.
+		for _, call := range hooks.FilterCalls() {
+			if awaitName, awaitWeight := callable.ParseTriggerExpression(call.GetTraits().Await); awaitName == trigger {
+				allWeightsSet[awaitWeight] = callable.Hooks{}
+			}
+		}
 	}
 	for k := range callsMapForAwait {
 		allWeightsSet[k] = callable.Hooks{}
